@@ -48,7 +48,7 @@ def history(rng, nt, serial=False):
 
     for _ in range(nt):
         kind = rng.choice(["plain", "qa", "qsilent", "qerr", "cfg2", "cfg1", "cfgint", "cfgback", "edtext", "edtplain",
-                           "edtgap", "q24", "c24", "ev24", "unknown", "noframe", "strayback", "edtwrong"])
+                           "edtgap", "q24", "c24", "ev24", "unknown", "noframe", "strayback", "edtwrong", "edt24", "edtback"])
         if kind == "plain":
             obs.append([t, "fwd", rng.choice(F["plain"]), 16])
         elif kind == "qa":
@@ -84,6 +84,15 @@ def history(rng, nt, serial=False):
             obs.append([t, "fwd", F["edt6"], 16]); gap(False)
             obs.append([t, "fwd", rng.choice(F["plain"]), 16]); gap(False)
             obs.append([t, "fwd", F["ext6q"], 16])           # device type no longer applies
+        elif kind == "edt24":
+            # any frame after ENABLE DEVICE TYPE uses it up, also a 24-bit one or an event
+            obs.append([t, "fwd", F["edt6"], 16]); gap(False)
+            obs.append([t, "fwd", rng.choice([F["c24"], F["q24"]] + F["ev24"]), 24]); gap(rng.random() < 0.5)
+            obs.append([t, "fwd", F["ext6q"], 16])
+        elif kind == "edtback":
+            obs.append([t, "fwd", F["edt6"], 16]); gap(False)
+            obs.append([t, "back", rng.randrange(256), 8]); gap(False)
+            obs.append([t, "fwd", F["ext6q"], 16])
         elif kind == "edtgap":
             obs.append([t, "fwd", F["edt6"], 16]); gap(True)
             obs.append([t, "fwd", F["ext6q"], 16]); gap(False)   # memory lasts one frame, however long the pause
